@@ -61,7 +61,8 @@ pub fn c03_case(u: &mut Unstructured) -> c03::Case {
     let mut ops = vec![];
     for _ in 0..n {
         let idx: usize = u.arbitrary().unwrap_or(0);
-        ops.push(match u.int_in_range(0..=29u8).unwrap_or(0) {
+        ops.push(match u.int_in_range(0..=30u8).unwrap_or(0) {
+            30 => c03::Op::NewStatelessCallback,
             26..=28 => c03::Op::NewMixedResult(u.arbitrary().unwrap_or(0)),
             29 => c03::Op::ScratchBuf(u.int_in_range(0..=39usize).unwrap_or(0), u.arbitrary().unwrap_or(0)),
             0..=2 => c03::Op::NewResult(u.arbitrary().unwrap_or(true)),
